@@ -808,7 +808,9 @@ class Model:
             return mymemo[normalized_arg]
         else:
             result = self.equations[equation](normalized_arg)
-            mymemo[normalized_arg] = result
+            # several simulation threads share the memo: the first stored value wins and is what everybody uses,
+            # so that an (element, time) has a single value within a run even for stochastic equations
+            result = mymemo.setdefault(normalized_arg, result)
 
         return result
 
